@@ -28,7 +28,7 @@ type c17Op struct {
 	SendFail bool `json:"send_fails,omitempty"`
 	// Events: unsolicited audit records (sequence 0) queued ahead of this request's ACK
 	Events int `json:"unsolicited_records_before_ack,omitempty"`
-	// RecvFault (waitacks only): 1 = the first receive of the call fails hard (ENOBUFS); 2 = the ACKs are late:
+	// RecvFault (waitacks; value 1 also on a WaitForReply setter = its ACK is lost): 1 = the first receive of the call fails hard (ENOBUFS); 2 = the ACKs are late:
 	// every receive of the call says EAGAIN. The call reports an error and forgets nothing: a later call finds
 	// every ACK still owed to it
 	RecvFault int `json:"receive_fault,omitempty"`
@@ -88,11 +88,16 @@ func c17Check(c *mon.Ctx, k *c17Case) {
 	rulesFor := map[int][][]byte{}
 	reqErr := 0
 	reqRules := 0
+	reqLoseAck := false
 	sim.OnSend = func(s *simkernel.Sim, idx int, m simkernel.SentMsg) []simkernel.Step {
 		errnoFor[idx] = reqErr
 		var st []simkernel.Step
 		for i := 0; i < reqEvents; i++ {
 			st = append(st, simkernel.Step{Dgram: simkernel.Event(uint16(1300+i%30), fmt.Sprintf("audit(1.000:%d): queued ahead of the ACK", i))})
+		}
+		if reqLoseAck {
+			// the acknowledgement is lost: the receive fails hard (socket buffer overrun)
+			return append(st, simkernel.Step{Err: syscall.ENOBUFS})
 		}
 		st = append(st, simkernel.Step{Dgram: simkernel.Ack(m, syscall.Errno(reqErr))})
 		if reqErr != 0 {
@@ -264,6 +269,10 @@ func c17Check(c *mon.Ctx, k *c17Case) {
 					fail("waitreply-send-count", "op %d (%s): a WaitForReply command must put exactly one request on the wire whatever is still outstanding; it sent %d (returned %v)", i, op.Kind, len(sim.Sent)-sent0, err)
 					return
 				}
+				if hd := outstanding[0]; hd.errno != 0 && hd.errno != op.Errno && errors.Is(err, syscall.Errno(hd.errno)) {
+					fail("waitreply-steals-pending-verdict", "op %d (%s): the call returned %v, which is the kernel's verdict (errno %d) on the OLDEST OUTSTANDING NoWait request, not on this request (errno %d): that verdict belongs to WaitForPendingACKs", i, op.Kind, err, hd.errno, op.Errno)
+					return
+				}
 				if op.Errno == 0 && err != nil {
 					fail("waitreply-with-pending-nowait", "op %d (%s): the kernel acknowledged this request with errno 0, but with %d NoWait ACKs still outstanding the call consumed the wrong ACK and returned %v", i, op.Kind, len(outstanding), err)
 				}
@@ -293,6 +302,19 @@ func c17Check(c *mon.Ctx, k *c17Case) {
 					return
 				}
 			default:
+				if op.RecvFault == 1 {
+					// the ACK of a WaitForReply setter is lost (the receive fails): the call fails, and the request
+					// does not become a pending NoWait request (the waitacks op that follows finds nothing to wait for)
+					reqLoseAck = true
+					err := setter(libaudit.WaitForReply, false)
+					reqLoseAck = false
+					if err == nil {
+						fail("waitreply-fault-swallowed", "op %d: the receive of the ACK failed (ENOBUFS) yet the WaitForReply setter returned nil", i)
+						return
+					}
+					c.Add("waitreply_setters_with_lost_ack", 1)
+					continue
+				}
 				err := setter(libaudit.WaitForReply, op.Kind == "setpid-wait")
 				if op.Kind == "setpid-wait" {
 					usedSetPID = true
@@ -437,6 +459,8 @@ func c17Gen(r *mon.Rand, withK4 bool) *c17Case {
 				op.Kind = "setpid-wait"
 			} else if r.Chance(1, 10) {
 				op.SendFail, op.Errno = true, 0
+			} else if !withK4 && r.Chance(1, 8) {
+				op.RecvFault, op.Errno = 1, 0 // the ACK is lost; a waitacks op follows (below)
 			}
 		case x < 88:
 			op = c17Op{Kind: "getrules", N: r.Intn(4), Errno: mon.Pick(r, []int{0, 0, 0, int(syscall.EPERM)})}
@@ -449,6 +473,9 @@ func c17Gen(r *mon.Rand, withK4 bool) *c17Case {
 			outstanding = 0
 		}
 		k.Ops = append(k.Ops, op)
+		if op.Kind == "wait" && op.RecvFault == 1 {
+			k.Ops = append(k.Ops, c17Op{Kind: "waitacks"})
+		}
 	}
 	return k
 }
@@ -456,7 +483,7 @@ func c17Gen(r *mon.Rand, withK4 bool) *c17Case {
 func init() {
 	register(&mon.CheckSpec{
 		ID: "C17", Level: "exploration",
-		Rule: "cases = seeded histories (1-14 ops; one in twelve has 20-70 ops with dozens of NoWait requests outstanding at once) over a simulated kernel that reuses one receive buffer and may refuse any request: NoWait setters (all seven, incl. SetPID, SetImmutable and SetFailure), WaitForPendingACKs (repeated, with nothing outstanding, after an error among the ACKs), WaitForReply setters, GetRules / GetStatus followed by more traffic, then Close from 1-8 goroutines at once followed by 0-4 further Close calls; a reference list of outstanding NoWait requests decides how many ACK datagrams each WaitForPendingACKs call must consume, what it returns and that it never waits on an empty socket; every rule slice returned by GetRules is compared with its snapshot after every later operation; Close is checked through the simulated socket's close counter and the requests it sends. A tenth of the histories issue a WaitForReply command while NoWait ACKs are outstanding (known finding K4). Runs under the race detector (concurrent Close). distinct_nontrivial = distinct histories containing a repeated WaitForPendingACKs, an error among pending ACKs, held rule data or concurrent Close.",
+		Rule: "cases = seeded histories (1-14 ops; one in twelve has 20-70 ops with dozens of NoWait requests outstanding at once) over a simulated kernel that reuses one receive buffer and may refuse any request: NoWait setters (all seven, incl. SetPID, SetImmutable and SetFailure), WaitForPendingACKs (repeated, with nothing outstanding, after an error among the ACKs), WaitForReply setters (some lose their ACK to a receive error: nothing may stay pending), GetRules / GetStatus followed by more traffic, then Close from 1-8 goroutines at once followed by 0-4 further Close calls; a reference list of outstanding NoWait requests decides how many ACK datagrams each WaitForPendingACKs call must consume, what it returns and that it never waits on an empty socket; every rule slice returned by GetRules is compared with its snapshot after every later operation; Close is checked through the simulated socket's close counter and the requests it sends. A tenth of the histories issue a WaitForReply command while NoWait ACKs are outstanding (known finding K4). Runs under the race detector (concurrent Close). distinct_nontrivial = distinct histories containing a repeated WaitForPendingACKs, an error among pending ACKs, held rule data or concurrent Close.",
 		Assumptions: []string{
 			"the simulated kernel acknowledges requests in the order they were sent, as the real kernel does",
 			"waiting on an empty socket is observed as a Receive that finds nothing queued (the library would sleep 10 x 50 ms there)",
